@@ -62,7 +62,7 @@ func (w *world) replayHistory(hi int, h history) {
 		}
 	}
 	g := &group{w: w, u: u, state: "valid"}
-	g.emit(map[string]interface{}{"event": "Reset", "role": u.role})
+	g.emit(map[string]interface{}{"event": "Reset", "role": u.role, "other": u.curoOr()})
 	w.res.Traces++
 	slots := map[int]*slot{}
 	logins := 0
@@ -133,7 +133,7 @@ func (w *world) replayHistory(hi int, h history) {
 				diverged("setpermission", err)
 				return
 			}
-			g.emit(map[string]interface{}{"event": "SetPermission", "p": st.P})
+			g.emit(map[string]interface{}{"event": "SetPermission", "db": "own", "p": st.P})
 		case "deactivate":
 			vh.Must(w.setUserActive(u, false), "deactivate")
 			g.emit(map[string]interface{}{"event": "Deactivate"})
@@ -227,7 +227,7 @@ func (w *world) replayHistory(hi int, h history) {
 				err = w.userInvoke(sl.ctx(), "ListUsers", &emptypb.Empty{}, &schema.UserList{})
 			}
 			accepted := err == nil
-			line := g.emit(map[string]interface{}{"event": "Call", "s": n, "kind": sl.kind, "sess": sl.st, "sel": sl.sel, "role": u.role, "cur": u.cur,
+			line := g.emit(map[string]interface{}{"event": "Call", "s": n, "kind": sl.kind, "sess": sl.st, "sel": sl.sel, "role": u.role, "cur": u.cur, "curo": u.curoOr(),
 				"active": u.active, "rpc": "probe:" + probe, "target": "-", "code": fmt.Sprint(err), "ok": accepted, "authreq": true, "creds": false, "effs": []effect{}})
 			w.res.Count("hist-probes", 1)
 			if accepted {
